@@ -1264,6 +1264,25 @@ func ruleT13(c *Ctx, id string) {
 			if ln < 0 {
 				continue // a list of another form (built by a helper): the roles of T3 judge it
 			}
+			// a list made with make([]Inum, n) is filled position by position: all of them
+			lv := sc.S.resolve(stripConv(args[1]))
+			_, isMS := lv.(*ssa.MakeSlice)
+			_, isSl := lv.(*ssa.Slice)
+			if isMS || isSl {
+				filled := map[int64]bool{}
+				for _, r := range refs(lv) {
+					if ia, ok := r.(*ssa.IndexAddr); ok {
+						if k, isk := constInt(ia.Index); isk {
+							for _, r2 := range refs(ia) {
+								if st, ok := r2.(*ssa.Store); ok && st.Addr == ssa.Value(ia) {
+									filled[k] = true
+								}
+							}
+						}
+					}
+				}
+				R.Check(int64(len(filled)) == ln, id, fmt.Sprintf("NFSPROC3_RENAME|relock list of %d: every position filled", ln), P.Pos(call.Pos()), "each of the positions of the list is assigned an inode number", fmt.Sprintf("%d of %d", len(filled), ln), fmt.Sprintf("only %d of the %d positions are assigned: the others are 0, the reserved inode number - the bulk acquisition fails (or locks the wrong inode) every time and RENAME onto an existing name retries for ever", len(filled), ln))
+			}
 			n++
 			R.Analysed[FuncName(ren)] = true
 			if ln >= 4 {
